@@ -97,7 +97,15 @@ def run_case(data):
     r = Result()
     client = ch.bool()
     upgrade = ch.chance(32)
-    w = World(client, r, 'C08', upgrade=upgrade)
+    # a quarter of the cases run with outbound header validation switched off: the message rules that rest on
+    # stream state (1xx after the final response, 1xx with END_STREAM, a block after the final one without
+    # END_STREAM, second trailers, role gates) do not depend on it.  Refusals that rest on the *content* of a
+    # header list are not generated there: without validation the library sends what it is given.
+    novalidate = ch.chance(64)
+    cfg = {'validate_outbound_headers': False} if novalidate else {}
+    w = World(client, r, 'C08', upgrade=upgrade, **cfg)
+    if novalidate:
+        r.labels.add('validate_outbound_headers=False')
     mon = OutMonitor(client)
     r.step('role', 'client' if client else 'server', 'upgraded' if upgrade else '')
     refused_on = {}
@@ -148,6 +156,13 @@ def run_case(data):
             es = ch.bool()
             if m.classify(sid) == 'idle' and (not client or sid % 2 == 0):
                 forbidden_open = True
+            # (a client never classifies its own blocks as informational: there a ':status: 1xx' list is only
+            # caught by validation)
+            if novalidate and (m.send_headers_verdict(sid, kind, es)[1] in (
+                    'message:not-a-request', 'message:trailers-before-response', 'message:second-final-block')
+                    or (client and kind == 'info')):
+                r.excluded['content-based-refusal-with-validation-off'] += 1
+                continue
             res, o = w.send_headers(sid, kind, es)
         elif op == 'data':
             res, o = w.send_data(sid, ch.chance(64), n=ch.int(0, 20), pad=ch.pick([None, None, 0, 5]))
